@@ -255,6 +255,34 @@ func main() {
 		}(i, e)
 	}
 	wg.Wait()
+	// every bit length of the variable-length and external address kinds
+	for i, a := range reg.AddrSweep(R.Rng("addr-sweep", 0)) {
+		a := a
+		v := reflect.ValueOf(&a).Elem()
+		if containsAmbiguousAddrVar(v, 0) {
+			continue
+		}
+		doc, err := json.Marshal(a)
+		R.Eval(fmt.Sprintf("addr-sweep/%d", i))
+		if err != nil || !json.Valid(doc) {
+			R.Violation("invalid-json@tlb.MsgAddress/sweep", map[string]any{"value": fmt.Sprintf("%+v", a), "err": fmt.Sprint(err)})
+			continue
+		}
+		var back tlb.MsgAddress
+		var uerr error
+		if p := mon.Guard(func() { uerr = json.Unmarshal(doc, &back) }); p != nil {
+			R.Violation("panic@UnmarshalJSON/tlb.MsgAddress", map[string]any{"doc": string(doc), "panic": p.Value})
+			continue
+		}
+		kind := string(a.SumType)
+		if uerr != nil {
+			R.Violation("parse-back-failed@tlb.MsgAddress/"+kind+"/length-sweep", map[string]any{"doc": string(doc), "err": uerr.Error(), "bits": addrBits(a)})
+			continue
+		}
+		if d := reg.Equal(v, reflect.ValueOf(&back).Elem(), reg.EqOpts{}); d != "" {
+			R.Violation("roundtrip-mismatch@tlb.MsgAddress/"+kind+"/length-sweep", map[string]any{"doc": string(doc), "diff": d, "bits": addrBits(a)})
+		}
+	}
 	R.Sample(map[string]any{"type": "tlb.Int257", "example": "-2^256 -> \"-1157920892...\" -> parsed back equal; also as struct field and slice element"})
 	os.Exit(R.Finish())
 }
@@ -264,4 +292,14 @@ func fieldByName(v reflect.Value, name string) reflect.Value {
 		return reflect.Value{}
 	}
 	return v.FieldByName(name)
+}
+
+func addrBits(a tlb.MsgAddress) int {
+	switch a.SumType {
+	case "AddrExtern":
+		return a.AddrExtern.BitsAvailableForRead()
+	case "AddrVar":
+		return int(a.AddrVar.AddrLen)
+	}
+	return 256
 }
